@@ -58,3 +58,21 @@ Proof.
   repeat split; reflexivity.
 Qed.
 Print Assumptions C10_tables.
+
+(* The second clause - "if the reader fails with an I/O error, ReadFile returns an error" - on the model, for EVERY input
+   (so for every failure offset of every file: the model of a reader failing after k bytes is the first k bytes with the
+   failing flag): ReadFile never reports success.  front/TokStrict.v: over a failing reader every Next() that returns false
+   leaves an error recorded, and it is never the clean-EOF marker Next() would remove (an invariant through every builder of
+   the tokenizer, with the fuel bounds that make the fuel-exhausted branches unreachable); front/ParseStrict.v: the parser
+   only moves forward through such results, and the top-level loop can return a File only at an end-of-input result, whose
+   error then makes it fail.  (Running out of fuel or of precomputed results is not excluded here: it is never observed.) *)
+Require Import Bebop.front.TokStrict Bebop.front.ParseStrict.
+Definition C10_reader_failure_statement : Prop := forall input f s', read_file input true <> POk f s'.
+Theorem C10_reader_failure : C10_reader_failure_statement.
+Proof. exact read_file_failing_reader. Qed.
+(* not vacuous: the same inputs are accepted when the reader ends cleanly *)
+Example C10_reader_failure_witness :
+  (exists f s, read_file [115; 116; 114; 117; 99; 116; 32; 65; 32; 123; 125; 10]%N false = POk f s) /\
+  read_file [115; 116; 114; 117; 99; 116; 32; 65; 32; 123; 125; 10]%N true = PErr /\ read_file [] true = PErr.
+Proof. split; [eexists; eexists; vm_compute; reflexivity|split; vm_compute; reflexivity]. Qed.
+Print Assumptions C10_reader_failure.
